@@ -58,7 +58,7 @@ def showNode (base cwd : PathS) (top n : Node) : Str :=
              joinL RS (n.hier.map (fun h => showPath (h.1 ++ [htmlName Gen.C17.indexName]))),
              joinL RS n.files, joinL RS n.copySub,
              joinL RS (navHrefs base top n), joinL RS (crumbHrefs base n),
-             joinL RS (bodyHrefs base cwd n) ]
+             joinL RS (bodyHrefs base cwd n), topNavHref base top n ]
 
 def showOut (p : PathS × Bool) : Str := if p.2 then showPath p.1 ++ ['/'] else showPath p.1
 
@@ -81,6 +81,12 @@ def dispatchC17 : List Str → Option (List Str)
     else if cmd == "c17.spec".toList then
       match args with
       | enc :: toks => some ("ok".toList :: (expPages (viewL enc (parseTree toks))).map showPath)
+      | _ => some ["bad-request".toList]
+    else if cmd == "c17.media".toList then
+      match args with
+      | has :: toks =>
+        let md := if has == ['1'] then some (viewL [] (parseTree toks)) else none
+        some ("ok".toList :: (mediaOutputs md).map showOut)
       | _ => some ["bad-request".toList]
     else if cmd == "c17.sort".toList then some ("ok".toList :: sortNames args)
     else if cmd == "c17.merged".toList then
